@@ -255,10 +255,26 @@ class LocalShare:
 
         return path, sharedHash
 
+    def __useCompetitor(self, workspace, buildId, mayMove):
+        """Somebody else installed the package first.
+
+        If the caller is going to link its workspace to the shared package
+        (mayMove) it must be recorded as user. Otherwise the garbage collection
+        will regard the package as unused. Returns False if the package is gone.
+        """
+        if not mayMove:
+            return True
+        try:
+            # The competitor might not have created the repository lock file yet.
+            open(os.path.join(self.__path, "repo.json"), "a").close()
+        except OSError as e:
+            raise BuildError("Error updating shared repo: "+str(e))
+        return self.useSharedPackage(workspace, buildId)[0] is not None
+
     def installSharedPackage(self, workspace, buildId, sharedHash, mayMove):
         # Quick check: was somebody faster?
         sharedPath = self.__buildPath(buildId)
-        if os.path.isdir(sharedPath):
+        if os.path.isdir(sharedPath) and self.__useCompetitor(workspace, buildId, mayMove):
             return sharedPath, False
 
         # Prepare everyting in temporary directory next to the shared packages
@@ -301,13 +317,18 @@ class LocalShare:
                         "users" : [ os.path.abspath(workspace) ]
                     }, f)
 
-                # Atomic install. Loosing the race is not considered a problem.
-                try:
-                    os.rename(tmpSharedPath, sharedPath)
-                except OSError as e:
-                    if e.errno in (errno.ENOTEMPTY, errno.EEXIST):
+                # Atomic install. Loosing the race is not considered a problem
+                # as long as we can register as user of the competing package.
+                # If that has vanished in the meantime we simply try again.
+                while True:
+                    try:
+                        os.rename(tmpSharedPath, sharedPath)
+                        break
+                    except OSError as e:
+                        if e.errno not in (errno.ENOTEMPTY, errno.EEXIST):
+                            raise
+                    if self.__useCompetitor(workspace, buildId, mayMove):
                         return sharedPath, False
-                    raise
 
                 # Add to quota
                 repoSize = self.__addPackage(buildId, actualSize)
